@@ -122,7 +122,10 @@ def _check_case(case, stats=None):
                 changes_since_tick += 1
                 prev = cur
         before = prev
-        life.stop()
+        try:
+            life.stop()
+        except Exception as exc:  # pylint: disable=broad-except
+            raise Violation(f"stop_raises.{case['ext']}.{type(exc).__name__}", case, f"{case['ext']}: stop() raised {type(exc).__name__}: {exc} - the state held at that moment is not on disk") from exc
         if other is not None:
             other.stop()
         loaded = persist.fresh_load(version, path)
